@@ -527,6 +527,9 @@ class Eval:
                 return ("panic", mac)
             if mac == "matches":
                 m = strip(e)
+                if m.get("k") == "Match" and "guard" in m["arms"][0]:
+                    # `matches!(x, P if G)`: the expansion `match x { P if G => true, _ => false }` keeps the guard
+                    return self.expr({k_: v_ for k_, v_ in m.items() if k_ not in ("mac", "mac_src")}, env, depth)
                 if m.get("k") == "Match":
                     pats = tuple(sorted(hq.pat_key(q) for q in hq.or_alternatives(m["arms"][0]["pat"])))
                     return ("matches", self.expr(m["scrut"], env, depth), pats)
